@@ -16,6 +16,22 @@ CHECKS = {
  "C04": dict(tech="property-based testing (proptest): invariants (sums of breakdowns) plus a metamorphic area change",
              text="Every total is compared with the sum of the per-carrier figures, every by-service / by-carrier / by-source map with its total (keys neither missing nor invented), per-m2 x area with the absolute figure for every field, and a second evaluation with another area must change only arearef and the per-m2 block. Exploration over generated buildings, factor sets, k_exp and areas from 0.001 to 1e6.",
              note="Trusts generator soundness and the tolerance policy.", ref="4/C04"),
+
+ "C08": dict(tech="property-based testing (proptest): differential, full versus stripped factor set under catch_unwind",
+             text="For generated buildings (SALIDA lines anywhere, auxiliaries as only electricity, cogeneration with and without declared input, nEPB uses, surplus ambient/solar) and prepared factor sets, Factors::strip and both evaluations are run under catch_unwind: no panic, a successful evaluation stays successful, all numeric fields agree within tolerance, and strip only removes factors. Exploration.",
+             note="Trusts generator soundness and the tolerance policy.", ref="4/C08"),
+ "C09": dict(tech="property-based testing (proptest): metamorphic relation under permutation and subdivision of time steps",
+             text="Each generated building is evaluated in its base layout, with all steps permuted by a generated permutation and with each step split into m equal sub-steps (m in 2,3,4,5,8): every annual field and ratio must agree, per-step vectors must follow the permutation / carry 1/m, f_match must be unchanged. Exploration, cogeneration and load matching over-weighted.",
+             note="Sub-step values stay >= 0.00125 kWh; v/m rounded to f32; tolerance policy.", ref="4/C09"),
+ "C11": dict(tech="property-based testing (proptest): metamorphic scaling of energies and of the area",
+             text="Generated buildings with DHW demand are scaled by c (powers of two from 2^-6 to 2^20 and 3.7, 10, 0.1, 1e3, 1e6, kept inside the property's value domain): energies, weighted energies and per-step vectors must scale by c, RER*, f_match and the DHW renewable fraction (value or error) must not change; scaling the area by c must divide only the per-m2 block. Exploration.",
+             note="Domain 'zero or >= 0.01 kWh' applied to both buildings; ratio comparisons under the denominator noise rule.", ref="4/C11"),
+ "C12": dict(tech="property-based testing (proptest): per-step invariants on regime-forced electricity buildings, pairwise load matching on/off",
+             text="Electricity-centred generated buildings hit every regime per step (no production, no use, PV>=use, PV<use<=PV+CHP, use>PV+CHP, PV==use, only CHP). Checked per step: PV allocated before cogeneration, allocations bounded by use and production, f_match == 1 without load matching and equal to formula (32) within [0.5,1] with it, and load matching never increases self-use nor decreases grid delivery (all carriers). Exploration.",
+             note="Tolerance policy; f_match compared at 2e-5.", ref="4/C12"),
+ "C14": dict(tech="property-based testing (proptest): metamorphic monotonicity on pairs (building, building + extra EL_INSITU production)",
+             text="For generated buildings under the four regulatory factor sets, k_exp in [0,1], both load-matching modes and generated non-negative per-step PV increments (zero, exactly / half / more than the uncovered use), non-renewable primary energy, CO2 (steps A and B) and grid-delivered energy must not increase and, at k_exp=0, RER must not decrease. One known finding (KF-C14-rer-cogen-displaced) is excused by signature. Exploration.",
+             note="RER clause under the denominator noise rule; known finding signature = used cogenerated electricity decreases.", ref="4/C14"),
 }
 PENDING = {}
 TITLES = {}
